@@ -95,7 +95,7 @@ PROPERTIES = {
     },
     "C14": {
         "level": "exploration",
-        "classes": ["TSAN_RACE", "ASM_GLOBAL_RACE", "PROCESS_STATE_RACE", "CACHE_CHECKSUM", "DIGEST_MISMATCH", "DATASET_ITEM_MISMATCH", "DATASET_WRITE_OUTSIDE", "DATASET_MODEL_DISAGREE", "UNEXPECTED_NULL"] + CRASH,
+        "classes": ["TSAN_RACE", "ASM_GLOBAL_RACE", "PROCESS_STATE_RACE", "MAP_FIXED_CLOBBER", "CACHE_CHECKSUM", "DIGEST_MISMATCH", "DATASET_ITEM_MISMATCH", "DATASET_WRITE_OUTSIDE", "DATASET_MODEL_DISAGREE", "UNEXPECTED_NULL"] + CRASH,
         "rule": "seeded plans: shared cache(s)/dataset set up by the main task, then 2-4 simulated threads with own VMs of all flag sets, disjoint init_dataset ranges and private objects, run under the seeded scheduler; "
                 "a case is one (plan, schedule); distinct_nontrivial counts distinct plan shapes; distinct interleavings reported separately; "
                 "oracles: TSan happens-before reports (scheduler invisible to TSan), digests/dataset/private-cache contents == sequential model, read-only page guards on shared data, "
@@ -107,7 +107,7 @@ PROPERTIES = {
         "expected_probes": ["shared_cache_phase", "shared_dataset_phase", "concurrent_dataset_init_phase", "ro_guard"],
         "tiers": {
             "quick": [B("tsan-small-a", "tsan", "small-a", 1500, 40), B("plain-small-a", "plain", "small-a", 3000, 20), B("plain-small-b", "plain", "small-b", 1000, 8),
-                      B("preempt-small-a", "plain", "small-a", 3000, 25, mode="preempt"), B("tsan-shipped", "tsan", "shipped", 4, 30, workers=4, gate=1)],
+                      B("preempt-small-a", "plain", "small-a", 3000, 25, mode="preempt"), B("plain-shipped", "plain", "shipped", 24, 15, workers=8, gate=2), B("tsan-shipped", "tsan", "shipped", 4, 30, workers=4, gate=1)],
             "thorough": [B("tsan-small-a", "tsan", "small-a", 40000, 420), B("tsan-small-b", "tsan", "small-b", 15000, 180), B("plain-small-a", "plain", "small-a", 150000, 300),
                          B("plain-small-b", "plain", "small-b", 50000, 120), B("preempt-small-a", "plain", "small-a", 100000, 420, mode="preempt"), B("preempt-small-b", "plain", "small-b", 30000, 120, mode="preempt"),
                          B("preempt-shipped", "plain", "shipped", 300, 240, workers=8, mode="preempt", gate=4), B("tsan-shipped", "tsan", "shipped", 300, 420, workers=8, gate=4), B("plain-shipped", "plain", "shipped", 300, 240, workers=8, gate=4), B("full-dataset-shipped-plain", "plain", "shipped", 2, 1200, workers=2, mode="fullshipped", gate=0, hang_s=3600),
